@@ -300,6 +300,11 @@ def run(ck, F, tier):
             "reader consumes %d lines before the column loop (1 parsed + %d skipped) and %d per column; writer emits %d before the lists" % (
                 len(line_next_top), len(line_next_top) - 1, len(line_next_loop), lines_before),
             {"reader_lines": len(line_next_top), "writer_lines": lines_before})
+    # every column line and every token is read: the reading loops are left only by `?` (an error), never by break / return Ok
+    brk = [e for e in tr.events if e.callee == "<break>" and e.loops]
+    early_ok = [e for e in tr.events if e.callee == "<return>" and e.loops and isinstance(e.args[0], tuple) and e.args[0][:2] == ("ctor", "Ok")]
+    ck.inst("P3", "reader:no-early-exit", not brk and not early_ok, (brk or early_ok)[0].site if (brk or early_ok) else rb.span,
+            "the column loop and the token loop run to the end of their input (%d break, %d early Ok return inside them)" % (len(brk), len(early_ok)))
     ck.inst("P3", "agree:line-count", len(line_next_top) == lines_before, rb.span, "lines before lists: reader %d == writer %d" % (len(line_next_top), lines_before))
     hdr_ok = False
     why = "header tokens / SparseMatrix::new not found"
